@@ -65,7 +65,6 @@ func (c CompleteMultipartUploadRequest) partIDs() []int {
 	for _, inputPart := range c.Parts {
 		inParts = append(inParts, inputPart.PartNumber)
 	}
-	sort.Ints(inParts)
 	return inParts
 }
 
